@@ -28,14 +28,29 @@ META = dict(
               'transport adapter (hostile responses: raw bytes, ill-formed '
               'UTF-8/XML, DTD-invalid and structure-mutated valid CIM-XML, '
               'HTTP status/header variants, transport faults) with an '
-              'exception-type / result-type oracle and CPU-time watchdog',
+              'exception-type / result-type oracle (incl. the python type of '
+              'InvokeMethod results against the declared PARAMTYPE) and '
+              'CPU-time watchdog; seeds: facade answers, the server answers '
+              'recorded in the repository function tests, and a corpus of '
+              'responses that once exposed a defect',
     level_text='All 41 public operation methods x five response classes. '
                'Valid responses come from the CIM-XML facade executing the '
                'call on a generated repository and are then mutated '
                'structure-aware (attribute values from a hostile token pool, '
                'elements dropped/duplicated/swapped/replaced by payload of '
                'another operation, missing PARAMTYPE/TYPE/CODE, VALUE.NULL in '
-               'typed arrays, deep nesting). Outcome must be a documented '
+               'typed arrays, deep nesting, references nested hundreds of '
+               'levels, single-fault "directed" mutations: one attribute set '
+               'to a value from its own hostile domain or added where the DTD '
+               'allows it, one number text wrong for its type, EmbeddedObject '
+               'on non-string types, type names exchanged, pull control '
+               'parameters in every combination, WBEM URI strings as '
+               'reference values). HTTP class: status x headers incl. '
+               'Content-type composed from media type x charset; transport '
+               'faults composed from underlying exception x urllib3 wrapper '
+               'x requests class. The first cases of every run replay '
+               'corpus/C02 (witnesses of repaired, seeded and mutant '
+               'defects). Outcome must be a documented '
                'result type or a pywbem.Error; parse errors must carry the '
                'request and response data. Held on K responses.',
     level_note='Trusted: the result-type table in this module (transcribed '
@@ -51,7 +66,8 @@ META = dict(
     min_eval=1000, min_distinct=300,
     required_events=['TupleParser.check_node', 'pywbem_requests_exception',
                      'WBEMConnection._get_rslt_params', 'reached-xml-parser',
-                     'structure-mutated'],
+                     'structure-mutated', 'recorded-response-used',
+                     'corpus-witness-replayed', 'invoke-result-typed'],
 )
 
 REACH = ['pywbem._tupleparse:TupleParser.check_node',
